@@ -121,7 +121,7 @@ Tags == {"p:rms", "p:skipadd", "p:ln", "p:erf", "p:tanh", "p:biasadd", "p:softma
          "com.microsoft::SkipLayerNormalization", "com.microsoft::Gelu", "com.microsoft::FastGelu",
          "com.microsoft::BiasGelu", "com.microsoft::GroupNorm", "ai.onnxruntime._fusion::RotaryEmbedding",
          "com.microsoft::RotaryEmbedding", "ai.onnxruntime._fusion::SDPA", "com.microsoft::MultiHeadAttention",
-         "com.microsoft::Attention", "com.microsoft::GroupQueryAttention"}
+         "com.microsoft::Attention", "com.microsoft::GroupQueryAttention", "com.microsoft::FusedMatMul"}
 PatTags == {"p:rms", "p:skipadd", "p:ln", "p:erf", "p:tanh", "p:biasadd", "p:softmax_upcast", "p:instnorm", "p:rope",
             "p:partial", "p:sdpa", "p:qkv", "p:preq", "p:gqawrap", "p:packed", "p:folded"}
 Bag0 == [t \in Tags |-> 0]
@@ -137,15 +137,24 @@ SkipCombos == IF Big THEN {<<"none", "none", "full">>} \cup
                           {<<sk, bi, ss>> : sk \in {"plain", "swap"}, bi \in {"none", "pre", "post"}, ss \in {"full", "b1", "sd"}}
               ELSE {<<"none", "none", "full">>, <<"plain", "none", "full">>, <<"swap", "pre", "full">>, <<"plain", "post", "full">>,
                     <<"plain", "none", "b1">>, <<"swap", "none", "sd">>}
-RmsCfgs == {[fam |-> "rms", dt |-> dt, cast |-> ca, mulorder |-> mo, eps |-> e, miss |-> mi,
+\* miss: one near-miss at a time ("axis": the same axis spelled 2; "axis1": another legal axis; "attrs": attributes left to
+\* their defaults; "expo": x**3).  sln: "pat" the primitive pattern | "op" / "op_noeps": SimplifiedLayerNormalization already in
+\* the source, with epsilon spelled out / omitted (operator default 1e-5) - what skip_rms has to forward
+RmsCfgs == {[fam |-> "rms", dt |-> dt, cast |-> ca, mulorder |-> mo, eps |-> e, miss |-> mi, sln |-> "pat",
              skip |-> sc[1], bias |-> sc[2], skipshape |-> sc[3], B |-> z[1], S |-> z[2], D |-> z[3]] :
             dt \in DT, ca \in BOOL, mo \in {0, 1}, e \in (IF Big THEN {0, 1, 2} ELSE {2}),
-            mi \in {"none", "axis", "attrs", "expo"}, sc \in SkipCombos, z \in Sz3}
+            mi \in {"none", "axis", "axis1", "attrs", "expo"}, sc \in SkipCombos, z \in Sz3}
+           \cup
+           {[fam |-> "rms", dt |-> "f32", cast |-> FALSE, mulorder |-> 0, eps |-> e, miss |-> "none", sln |-> sl,
+             skip |-> sc[1], bias |-> sc[2], skipshape |-> "full", B |-> 2, S |-> 3, D |-> 8] :
+            e \in {0, 2}, sl \in {"op", "op_noeps"},
+            sc \in {<<"none", "none">>, <<"plain", "none">>, <<"swap", "pre">>, <<"plain", "post">>}}
 SkipLnCfgs == {[fam |-> "skipln", dt |-> dt, skip |-> sk, skipshape |-> ss, bias |-> bo[1], biasorder |-> bo[2],
                 eps |-> e, miss |-> mi, B |-> z[1], S |-> z[2], D |-> z[3]] :
                dt \in DT, sk \in {"plain", "swap"}, ss \in {"full", "b1", "sd"},
                bo \in {<<"none", 0>>, <<"pre", 0>>, <<"pre", 1>>, <<"post", 0>>, <<"post", 1>>},
-               e \in (IF Big THEN {0, 2} ELSE {2}), mi \in {"none", "axispos", "axisabsent", "nobeta"}, z \in Sz3}
+               \* eps: index into the epsilon menu; 3 = attribute omitted (ONNX default 1e-5, the contrib operator's own default differs)
+               e \in (IF Big THEN {0, 2, 3} ELSE {2, 3}), mi \in {"none", "axispos", "axisabsent", "nobeta"}, z \in Sz3}
 GeluBias == {"none", "vec", "vecswap", "one", "row"}
 GeluCfgs == {[fam |-> "gelu", dt |-> dt, form |-> f, swap |-> sw, kconst |-> k, bias |-> b, B |-> 2, S |-> 3, D |-> d] :
              dt \in DT, f \in {"tanh", "erf_a", "erf_b", "erf_c"}, sw \in BOOL, k \in {0, 1}, b \in GeluBias,
@@ -176,9 +185,17 @@ Masks == {"none", "bhst", "b1st", "11st", "b11t", "1hst", "st", "1t", "t", "hst"
 SdpaSz == IF Big THEN {<<2, 2, 3, 4, 4, 4>>, <<1, 1, 1, 1, 2, 2>>, <<2, 4, 3, 3, 8, 4>>, <<1, 2, 1, 5, 4, 8>>}
           ELSE {<<2, 2, 3, 4, 4, 8>>}
 SdpaMasks == IF Big THEN Masks ELSE {"none", "bhst", "b11t", "st", "t", "hst", "b1s1"}
+\* sax: the Softmax axis: "neg" = -1 | "pos" = 3 (the same axis, spelled differently) | "absent" (default -1) | "two" / "one":
+\* another legal axis - not attention at all
 SdpaCfgs == {[fam |-> "sdpa", dt |-> dt, kfmt |-> kf, qs |-> sf[1], ks |-> sf[2], qks |-> sf[3], sc |-> sf[4], mask |-> m,
-              nanfix |-> nf, B |-> z[1], H |-> z[2], S |-> z[3], T |-> z[4], Dh |-> z[5], Dv |-> z[6]] :
+              nanfix |-> nf, sax |-> "neg", B |-> z[1], H |-> z[2], S |-> z[3], T |-> z[4], Dh |-> z[5], Dv |-> z[6]] :
              dt \in DT, kf \in {"t4", "r3", "bshd"}, sf \in (IF Big THEN ScaleForms ELSE ScaleFormsSmall), m \in SdpaMasks, nf \in BOOL, z \in SdpaSz}
+            \cup
+            {[fam |-> "sdpa", dt |-> dt, kfmt |-> kf, qs |-> sf[1], ks |-> sf[2], qks |-> sf[3], sc |-> sf[4], mask |-> m,
+              nanfix |-> FALSE, sax |-> sx, B |-> 2, H |-> 2, S |-> 3, T |-> 4, Dh |-> 4, Dv |-> 8] :
+             dt \in (IF Big THEN DT ELSE {"f32"}), kf \in {"t4", "r3", "bshd"},
+             sf \in {<<"none", "none", "mul", "default">>, <<"none", "none", "div", "default">>, <<"none", "mul", "none", "other">>},
+             m \in {"none", "b1st"}, sx \in {"pos", "absent", "two", "one"}}
 MhaBias == IF Big THEN {<<"none", "none", "none">>, <<"vec", "vec", "vec">>, <<"vec", "none", "none">>, <<"none", "none", "vec">>,
                         <<"one", "none", "none">>, <<"full", "vec", "vec">>, <<"row", "none", "vec">>}
            ELSE {<<"none", "none", "none">>, <<"vec", "vec", "vec">>, <<"one", "none", "none">>, <<"full", "vec", "vec">>}
@@ -202,14 +219,16 @@ GqaCfgs == {[fam |-> "gqa", dt |-> dt, B |-> b, S |-> s, P |-> p, H |-> hh[1], H
              inter |-> it, packed |-> pk] :
             dt \in (IF Big THEN DT ELSE {"f32"}), b \in {1, 2}, s \in {1, 3}, p \in {0, 2},
             hh \in (IF Big THEN {<<2, 1>>, <<2, 2>>, <<4, 2>>} ELSE {<<2, 1>>, <<2, 2>>}),
-            dh \in {8, 16}, m \in {"causal", "zeros", "input"}, sc \in {"default", "other"}, it \in (IF Big THEN {0, 1} ELSE {1}), pk \in BOOL}
+            dh \in {8, 16}, m \in {"causal", "zeros", "input"}, sc \in {"default", "other"}, it \in (IF Big THEN {0, 1, 2} ELSE {1}), pk \in BOOL}   \* inter: 0 attribute omitted | 1 | 2 = explicit 0
 CfgsOf(f) == CASE f = "rms" -> RmsCfgs [] f = "skipln" -> SkipLnCfgs [] f = "gelu" -> GeluCfgs
                [] f = "softmax" -> SoftmaxCfgs [] f = "groupnorm" -> GroupNormCfgs [] f = "rotary" -> RotaryCfgs
                [] f = "sdpa" -> SdpaCfgs [] f = "mha" -> MhaCfgs [] f = "gqa" -> GqaCfgs
 
 \* the abstract model of the instance the builder makes for a configuration
 Ops0(c) ==
-    CASE c.fam = "rms" -> [Bag0 EXCEPT !["p:rms"] = 1, !["p:skipadd"] = IF c.skip = "none" THEN 0 ELSE 1]
+    CASE c.fam = "rms" -> [Bag0 EXCEPT !["p:rms"] = IF c.sln = "pat" THEN 1 ELSE 0,
+                                     !["SimplifiedLayerNormalization"] = IF c.sln = "pat" THEN 0 ELSE 1,
+                                     !["p:skipadd"] = IF c.skip = "none" THEN 0 ELSE 1]
       [] c.fam = "skipln" -> [Bag0 EXCEPT !["p:ln"] = 1, !["p:skipadd"] = 1]
       [] c.fam = "gelu" -> [Bag0 EXCEPT !["p:erf"] = IF c.form \in {"erf_a", "erf_b", "erf_c"} THEN 1 ELSE 0,
                                         !["p:tanh"] = IF c.form = "tanh" THEN 1 ELSE 0,
@@ -293,7 +312,8 @@ PartialRopeCode(c) == c.fam = "rotary" /\ Has("com.microsoft::RotaryEmbedding") 
 SdpaCode(c) ==
     /\ c.fam \in {"sdpa", "mha", "gqa"} /\ Has("p:sdpa")
     /\ IF c.fam = "sdpa"
-       THEN Unifies(<< <<<<c.B, c.H, c.S, c.Dh>>, <<"B", "H", "S", "Dh">>>>,
+       THEN c.sax = "neg" /\          \* pattern: op.Softmax(attn_score, axis=-1) - the attribute must be present and equal -1
+            Unifies(<< <<<<c.B, c.H, c.S, c.Dh>>, <<"B", "H", "S", "Dh">>>>,
                        IF c.kfmt = "bshd" THEN <<<<c.B, c.T, c.H, c.Dh>>, <<"B", "Skv", "H", "Dh">>>>
                                            ELSE <<<<c.B, c.H, c.T, c.Dh>>, <<"B", "H", "Skv", "Dh">>>>,
                        <<<<c.B, c.H, c.T, c.Dv>>, <<"B", "H", "Skv", "Dv">>>> >>)
@@ -480,6 +500,10 @@ OrtRules ==
     /\ IF Go(SoftmaxCode(cfg), {}) THEN Commit("ort_rules", 1, [ops EXCEPT !["p:softmax_upcast"] = 0], {})
        ELSE IF Go(GroupNormCode(cfg), GroupNormDevs(cfg))
        THEN Commit("ort_rules", 1, Move(ops, "p:instnorm", "com.microsoft::GroupNorm", 1), GroupNormDevs(cfg))
+       \* an attention-shaped subgraph that was NOT fused still contains MatMul(q, Transpose(k)) [* or / constant]: the fused-MatMul
+       \* rules (spec/FusedMatMul.tla) fold a last-two-dims Transpose that feeds the MatMul directly, and a Div by a scalar
+       ELSE IF cfg.fam = "sdpa" /\ Has("p:sdpa") /\ ((cfg.kfmt = "t4" /\ cfg.ks = "none") \/ cfg.qks = "div")
+       THEN Commit("ort_rules", 1, [ops EXCEPT !["com.microsoft::FusedMatMul"] = 1], {})
        ELSE Nothing("ort_rules")
 
 Init == /\ cfg \in UNION {CfgsOf(f) : f \in Fams}
